@@ -6,7 +6,7 @@ COMMON_NOTE = (
 )
 
 CHECKS = {
-    "C04": dict(level="proof", technique="MIR effect analysis + path enumeration (single writer, paired update, ordered consumers)",
+    "C04": dict(level="proof", technique="MIR effect analysis + path enumeration (single writer, paired update, ordered consumers, store conditions by control dependence)",
                 text="Inductive proof of the two-index invariant of the line store and of ascending order for every ordered "
                      "consumer, on the MIR of the current tree: single writer (effect analysis), paired insert/remove on all "
                      "paths of ProgramLines::set (path enumeration), no iteration of the HashMap, strict and total successor, "
@@ -34,7 +34,7 @@ CHECKS = {
                      "only Interpreter.output; trace only for numbered lines and before dispatch; warn before implicit array "
                      "creation; the output queue is write-only inside the core.",
                 note="That the trace sequence equals a reference execution trace is not decided (C03 residue).", ref="4/C17"),
-    "C18": dict(level="proof", technique="const-eval + MIR expression-tree match of the LCG step + interval argument on Rng.seed",
+    "C18": dict(level="proof", technique="const-eval + MIR expression-tree match of the LCG step + interval argument on Rng.seed, no whole-struct overwrite of the generator's owner",
                 text="Constants, step formula and argument dispatch read off the MIR; every store into Rng.seed is reduced modulo "
                      "2^33, so the step cannot overflow and seed/2^33 lies in [0,1); purity by callee enumeration; seeding API "
                      "forwards the 64-bit seed unchanged on every front end.",
@@ -49,7 +49,7 @@ CHECKS.update({
                      "whose invariant is another rule's obligation), arithmetic on host-controlled numerals via inter-procedural taint, bounded "
                      "native recursion via call-graph cycles, errors lead to Idle via post-dominance.",
                 note="Not a proof: non-local callees outside the panicking-API table are assumed not to panic (listed in evidence); heap "
-                     "exhaustion is out of scope. Known findings F12a/b (unbounded parser recursion) are reported as KNOWN-FINDING.", ref="4/C01"),
+                     "exhaustion is out of scope. F12a/b (unbounded parser recursion) were repaired in /repo (depth counter); the recursion rule stays armed.", ref="4/C01"),
     "C02": dict(level="other", technique="grammar / operator / typing table extraction from MIR (skeletons, path enumeration over discriminants) vs the stated rules",
                 text="The evaluator is shown to be the specified precedence-climbing left fold with the specified token->operator, "
                      "operator->operation (operand order) and operand-kind tables, truthiness, boolean encoding, ABS/INT and PRINT formatting.",
@@ -63,17 +63,17 @@ CHECKS.update({
                 text="Every panic-capable site reachable from SourceFileAnalyzer/SourceFileMap is discharged; a BASIC line is mapped iff stored "
                      "and every file line pushes exactly one range entry and token list (all paths of one loop iteration); successor strictness; "
                      "range-construction rule.",
-                note="Known findings: F9 (1-byte range for a multi-byte illegal character), F12c/d (unbounded analyzer recursion).", ref="4/C05"),
+                note="Open finding: F9 (1-byte range for a multi-byte illegal character). F8, F12c/d were repaired in /repo.", ref="4/C05"),
     "C06": dict(level="other", technique="sibling cross-check: dispatch tables, parsing skeletons, kind-transfer truth tables of evaluator vs analyzer",
                 text="The two hand-maintained forks are compared function by function on the MIR: same explicit dispatch arms, same token-consumption "
                      "skeletons for 24+ function pairs, same outcome per operator tier and operand-kind pair, paired statement-level kind checks, "
                      "same jump-target test, resume rule.",
                 note="Side conditions of the property (unique definitions executed before use) are taken as given. Known: F10 (ELSE resume), F19 (DEF body kind).",
                 ref="4/C06"),
-    "C07": dict(level="other", technique="frame argument: data-flow of capture/restore, effect sets (immediate mode, error path, PRINT), push/pop pairing on all exits",
+    "C07": dict(level="other", technique="frame argument: data-flow of capture/restore, effect sets (immediate mode, error path, PRINT), push/pop pairing counted per path, write sets on the paths that construct NEXT WITHOUT FOR / RETURN WITHOUT GOSUB / CAN'T CONTINUE",
                 text="Breakpoint capture/restore, who may write `breakpoint`, what immediate mode and the error path can modify, the write set of "
                      "the canonical inspecting statement, and the pairing of function-call frames on every exit.",
-                note="Transcript equality over all schedules is not decided. Known: F10, F11 (frame leak on failing FN call), F13 (implicit array on read).",
+                note="Transcript equality over all schedules is not decided. Open findings: F10 (ELSE resume), F13 (implicit array on read). F11 and F21 were repaired in /repo.",
                 ref="4/C07"),
     "C08": dict(level="other", technique="who-may-call + per-arm effect sets of evaluate_input_statement + single-consumption rule",
                 text="Only INPUT rewinds (to its own token), the awaiting arm executes nothing, the reply is consumed once through Option::take, the "
@@ -84,19 +84,19 @@ CHECKS.update({
                 text="At most one run_next_statement per path of every entry point, at most one dispatch per run_next_statement, chain nesting through IF "
                      "only, no run loop in the core, and every cursor-driven loop consumes a token per iteration.",
                 note="Wall-clock bounds are not decided; whole-program loops (DATA scan, string GC) are listed in the evidence, not bounded.", ref="4/C09"),
-    "C12": dict(level="other", technique="information-flow over the tokenizer's MIR: raw-byte reader set, cruncher filter, case folding, keyword constant table",
+    "C12": dict(level="other", technique="information-flow over the tokenizer's MIR: raw-byte reader set, cruncher filter, case folding, keyword constant table, cruncher positions never reach a branch (taint)",
                 text="Outside the protected regions every matcher obtains bytes only through LineCruncher (which never yields space/tab), keywords are "
                      "compared upper-cased against upper-case ASCII constants, advances are cruncher positions, DATA emptiness tests are consistent.",
                 note="Equal crunched views giving equal numeral values relies on str::parse::<f64> (trusted).", ref="4/C12"),
-    "C13": dict(level="other", technique="cursor discipline: all writes to Tokenizer.index enumerated and classified (monotone, provenance), range construction by data-flow",
+    "C13": dict(level="other", technique="cursor discipline: all writes to Tokenizer.index enumerated and classified (monotone, provenance), range construction and text provenance by data-flow, blank-skipping confined to the token boundary",
                 text="Every write to the cursor is `+= classified non-negative amount` or a restore of a saved copy; token ranges are (saved start after "
                      "blank-chomp)..(cursor at return); error positions are cursor values; the two collectors are the same iteration.",
                 note="The re-tokenisation round trip of a range is behavioural and not decided. Known: F9.", ref="4/C13"),
     "C14": dict(level="other", technique="inverse-table cross-check of the lexer (keyword chain, byte switch) and Token's Display (format templates decoded), finiteness and DATA rules",
                 text="For all fixed-spelling tokens Display(lex(s)) == s and every printed variant has a lexer row; REM/DATA/string/symbol/numeral "
                      "rendering rules; numerals stored in tokens are finite; DATA renderer vs parser.",
-                note="Identical behaviour under RUN of the reloaded program is not decided. Known: F14 (quote inside an unquoted DATA item).", ref="4/C14"),
-    "C15": dict(level="other", technique="sibling data-flow comparison of the two loading paths + post-dominance configuration rule over the CLI",
+                note="Identical behaviour under RUN of the reloaded program is not decided. F6, F14, F15 were repaired in /repo.", ref="4/C14"),
+    "C15": dict(level="other", technique="sibling data-flow comparison of the two loading paths (store conditions by control dependence, analysis write set vs reset kill set), post-dominance configuration rule and forward may-analysis of the line buffer over the CLI crate",
                 text="Both loading paths parse, tokenize and store with the same calls and data flow; every site that installs the CLI's interpreter "
                      "is followed by the application of the options; the page loads through the prompt path (TS scan).",
                 note="Byte equality of the binary's stdout/stderr in the two modes is process behaviour and not decided.", ref="4/C15"),
@@ -104,12 +104,12 @@ CHECKS.update({
                 text="Trap sites reachable from the adapter are discharged; latest_error is latched exactly on Err arms and cleared only by take; the "
                      "transient NEW state is swapped on every Ok path; mappings are identities; both error arms build the same text; every "
                      "precondition-bearing adapter call in main.ts sits under the state guard implying it.",
-                note="The TS scan is structural, not type-checked (no TypeScript front end installed). Known: F12a/b, F16 (unguarded loader calls).",
+                note="The TS scan is structural, not type-checked (no TypeScript front end installed). Open finding: F16 (unguarded loader calls in ts/main.ts). F12a/b, F17 were repaired in /repo.",
                 ref="4/C19"),
-    "C20": dict(level="other", technique="panic-site inventory from main_loop + units provenance rule on Position/SemanticToken operands + legend table extraction",
+    "C20": dict(level="other", technique="panic-site inventory from main_loop + units provenance rule on Position/SemanticToken operands, totality of the byte-to-column converters, document table overwritten never consulted, legend table extraction",
                 text="Liveness as panic-freedom of the server and the analyzer it calls, UTF-16 units rule on every column/length operand, legend "
                      "total/injective/in-range, no diagnostic filtered, handlers analyse the text they received.",
-                note="JSON-RPC framing and the lsp-server crate are outside the claim. Known: F12c/d, F18 (byte offsets as columns).", ref="4/C20"),
+                note="JSON-RPC framing and the lsp-server crate are outside the claim. F8, F12c/d, F18 were repaired in /repo.", ref="4/C20"),
 })
 
 NOT_APPLICABLE = {}
